@@ -597,7 +597,7 @@ func c05Gen(m *wdMon, blk, nBlocks, idx int, addrPool []addrCase) {
 			b.bridgeReq.ReplaceByFees = append(b.bridgeReq.ReplaceByFees, &goattypes.ReplaceByFeeRequest{Id: id, TxPrice: p})
 			lh.logf("EL: rbf #%d price %d", id, p)
 		}
-		if ids := m.idsIn("pending", "processing", "canceling", "paid"); len(ids) > 0 && r.Intn(3) == 0 {
+		if ids := m.idsIn("pending", "processing", "canceling", "paid", "canceled"); len(ids) > 0 && r.Intn(3) == 0 {
 			id := ids[r.Intn(len(ids))]
 			b.bridgeReq.Cancel1s = append(b.bridgeReq.Cancel1s, &goattypes.Cancel1Request{Id: id})
 			lh.logf("EL: cancel #%d", id)
@@ -695,7 +695,7 @@ func c05Gen(m *wdMon, blk, nBlocks, idx int, addrPool []addrCase) {
 			}
 		}
 	}
-	if cl := m.idsIn("canceling"); len(cl) > 0 && r.Intn(3) == 0 {
+	if cl := m.idsIn("canceling"); len(cl) > 0 && r.Intn(2) == 0 {
 		n := 1 + r.Intn(len(cl))
 		if op := m.approveOp(cl[:n], ""); op != nil {
 			b.ops = append(b.ops, op)
